@@ -41,6 +41,10 @@ SCENARIOS = [
     "function f(){ async function inner(n){ probe(); await null; probe(); return r(n) } function r(n){ probe(); return n > 0 ? r(n - 1) : 0 } async function outer(){ probe(); await inner(3); probe() } outer(); probe(); }",
     "function f(){ var cap = 1; function g(){ probe(); return function(){ return cap++ } } probe(); g()(); (function(){ let blk = 2; probe(); return () => blk })()(); }",
     "function f(){ reenter('probe(); try { probe(); throw 1 } catch(e) { probe() } finally { probe() }'); probe(); callfn(function(){ probe(); return 1 }); probe(); }",
+    # built-ins that keep runtime-wide bookkeeping while they call back into script (join's cycle detection)
+    "function f(){ var a = [1, {toString(){ probe(); return 'b' }}, 3]; a.join('-'); probe(); String([a, 4]); var sep = {toString(){ probe(); return '+' }}; [1, 2].join(sep); a.toString(); a.toLocaleString(); probe(); }",
+    # a generator closed (break / return()) while it is suspended inside a for-of over another generator whose finally block runs script
+    "function f(){ function* inner(){ try { yield 1; yield 2 } finally { probe(); log(1) } } function* outer(){ for (var x of inner()) { probe(); yield x } } for (var y of outer()) { probe(); break } probe(); var it = outer(); it.next(); probe(); it.return(5); probe(); var [d] = outer(); probe(); }",
 ]
 
 
@@ -142,7 +146,7 @@ def run_jobs(binp, jobs, wd, tag, trace):
     return [json.loads(l) for l in open(out)]
 
 
-IDLE = "{Cs:0 Ts:0 Is:0 Rs:0 Sp:0 Sb:-1 Jobs:0 Interrupted:false GlobalStash:true PrivEnv:false AsyncRunner:false Prg:false}"
+IDLE = "{Cs:0 Ts:0 Is:0 Rs:0 Sp:0 Sb:-1 Jobs:0 Interrupted:false GlobalStash:true PrivEnv:false AsyncRunner:false Prg:false ToStr:0}"
 CFG = """SPECIFICATION Spec
 CONSTANT Deviations = {%s}
 CONSTRAINT HW
